@@ -26,26 +26,42 @@ theorem datasetClosed_is_instance (env : Validate.Env) (kB : Tabular.RIssue) (F 
 def specSidecar (g : Group SJson) (d : PFile SJson) : Option (Columns SJson) :=
   if (specChain g d).isEmpty then none else some (mergeSpec g d)
 
+/-- validating a merged document with its own string layer (`sidecarOracleFor`) is the closed sidecar pipeline with
+declared definitions, `SidecarV.validateClosedD` -/
+theorem sidecarOracleFor_validate (env : Validate.Env) (m : Columns SJson) :
+    SidecarV.validate .fixed (sidecarOracleFor env m) (.obj m) = SidecarV.validateClosedD env .fixed (.obj m) := by
+  unfold SidecarV.validateClosedD SidecarV.validateD sidecarOracleFor
+  simp only [C08.extractDefsDoc_eq]
+
+/-- a sidecar whose chain holds JSON objects only is judged by `validateClosedD` on its merged document -/
+theorem sidecarClosed_eq_closedD (env : Validate.Env) (g : Group SJson) (s : PFile SJson)
+    (h : loadIssueCount g s = 0) :
+    sidecarClosed env g s = SidecarV.validateClosedD env .fixed (.obj (mergeImpl g s)) := by
+  unfold sidecarClosed
+  rw [h, List.replicate_zero, ← validate_obj, sidecarOracleFor_validate]
+
 /-- **dataset_closed_is_union.**  In a group of a well-formed tree (file-system listing, at most one applicable
 sidecar per directory, sidecars are JSON objects) the dataset's issue list is the concatenation — participating
-sidecars first, then participating events files, each in discovery order — of the closed sidecar pipeline on each
+sidecars first, then participating events files, each in discovery order — of the closed sidecar pipeline (declared definitions included, `validateClosedD`) on each
 sidecar's `mergeSpec` document and of the closed file pipeline on each file presented with its `mergeSpec`
-sidecar; every issue is labelled with its file; the first step that raises ends the run. -/
+sidecar in the environment of that sidecar's definitions (`fileEnv`); every issue is labelled with its file; the first step that raises ends the run. -/
 theorem dataset_closed_is_union (env : Validate.Env) (kB : Tabular.RIssue) (F : Frames) (g : Group SJson)
     (hW : ∀ o ∈ g.sidecars ++ g.datafiles, WellFormed g o) (hobj : ∀ s ∈ g.sidecars, s.obj = true) :
     validateGroupClosed env kB F g =
       seqE ((g.sidecars.map fun s =>
               tagE (DIssue.sidecar s.path) (DExn.sidecar s.path)
-                (SidecarV.validateClosed env .fixed (.obj (mergeSpec g s)))) ++
+                (SidecarV.validateClosedD env .fixed (.obj (mergeSpec g s)))) ++
             (g.datafiles.map fun d =>
               tagE (DIssue.table d.path) (DExn.table d.path)
-                (Tabular.validateClosed env kB (F d (specSidecar g d)).1 (F d (specSidecar g d)).2))) := by
+                (Tabular.validateClosed (fileEnv env (specSidecar g d)) kB
+                  (F d (specSidecar g d)).1 (F d (specSidecar g d)).2))) := by
   rw [closed_is_instance, dataset_validate_eq _ g (fun o ho => (hW o ho).toFiles) hobj]
   congr 2
   · apply map_congr'
     intro s hs
     rw [mergeChosen_eq_mergeSpec g s (hW s (List.mem_append_left _ hs)).unique]
-    rfl
+    show tagE _ _ (SidecarV.validate .fixed (sidecarOracleFor env (mergeSpec g s)) (.obj (mergeSpec g s))) = _
+    rw [sidecarOracleFor_validate]
   · apply map_congr'
     intro d hd
     have hu := (hW d (List.mem_append_right _ hd)).unique
@@ -114,7 +130,9 @@ theorem group_closed_total (env : Validate.Env) (kB : Tabular.RIssue) (F : Frame
   · obtain ⟨s, _, rfl⟩ := List.mem_map.mp hx
     exact tagE_ok _ _ _ (sidecarClosed_total env g s)
   · obtain ⟨d, _, rfl⟩ := List.mem_map.mp hx
-    exact tagE_ok _ _ _ (C07.total_closed env kB _ _ (hF d _).1 (hF d _).2)
+    refine tagE_ok _ _ _ ?_
+    unfold tableClosed
+    exact C07.total_closed (fileEnv env (sidecarOf g d)) kB _ _ (hF d _).1 (hF d _).2
 
 /-- **dataset_closed_total.**  On every tree whose participating file names parse (`loadAll` succeeds), with frames
 of the repaired file layer, closed dataset validation returns a list of issues: no sidecar content (any JSON value,
@@ -306,22 +324,22 @@ cells and the model's merged sidecar (the empty sidecar if none applies) -/
 theorem raw_table_step (env : Validate.Env) (k : Raw.Consts) (tables : Path → Assemble.Table) (g : Group SJson)
     (d : PFile SJson) :
     tableClosed env k.kBanned (rawFrames k tables) g d =
-      Tabular.validateClosedRaw env k (toJs ((sidecarOf g d).getD [])) (tables d.path) := rfl
+      Tabular.validateClosedRawD env k (toJs ((sidecarOf g d).getD [])) (tables d.path) := rfl
 
 /-- **dataset_closed_raw_is_union.**  For a well-formed group the dataset's issue list, computed from the tree alone,
 is the concatenation — participating sidecars first, then participating events files, in discovery order, each issue
-labelled with its file — of `SidecarV.validateClosed` on each sidecar's `mergeSpec` document and of
-`Tabular.validateClosedRaw` on each file's raw table with its `mergeSpec` sidecar (the empty sidecar if no sidecar
-applies). -/
+labelled with its file — of `SidecarV.validateClosedD` on each sidecar's `mergeSpec` document (its declared
+definitions extracted by the C09 model) and of `Tabular.validateClosedRawD` on each file's raw table with its
+`mergeSpec` sidecar, whose definitions the rows see first (the empty sidecar if no sidecar applies). -/
 theorem dataset_closed_raw_is_union (env : Validate.Env) (k : Raw.Consts) (tables : Path → Assemble.Table)
     (g : Group SJson) (hW : ∀ o ∈ g.sidecars ++ g.datafiles, WellFormed g o) (hobj : ∀ s ∈ g.sidecars, s.obj = true) :
     validateGroupClosedRaw env k tables g =
       seqE ((g.sidecars.map fun s =>
               tagE (DIssue.sidecar s.path) (DExn.sidecar s.path)
-                (SidecarV.validateClosed env .fixed (.obj (mergeSpec g s)))) ++
+                (SidecarV.validateClosedD env .fixed (.obj (mergeSpec g s)))) ++
             (g.datafiles.map fun d =>
               tagE (DIssue.table d.path) (DExn.table d.path)
-                (Tabular.validateClosedRaw env k (toJs ((specSidecar g d).getD [])) (tables d.path)))) := by
+                (Tabular.validateClosedRawD env k (toJs ((specSidecar g d).getD [])) (tables d.path)))) := by
   unfold validateGroupClosedRaw
   rw [dataset_closed_is_union env k.kBanned (rawFrames k tables) g hW hobj]
   rfl
@@ -417,6 +435,28 @@ theorem two_subject_example_closed_raw :
            .table [sub' '2', sub' '2' ++ '_' :: taskA' ++ evTsv'] ⟨['N'], 10, none, none, [], .mapping⟩ ] ∧
     ((validateDatasetClosedRaw C01.Tiny.env exConsts exRawDataset [] [['e','v','e','n','t','s']] false).toOption.map
       List.length) = some 2 := by
+  decide +kernel
+
+private def defEntry (s : Str) : SJson := .obj [(SidecarV.HED, .obj [(['d','1'], .str s)])]
+private def useTable : Assemble.Table := ⟨[Assemble.HEDNAME], [[['D','e','f','/','M','k','/','x']]]⟩
+
+/-- the root sidecar declares `Mk/#` ↦ `(Label/#)` in column `d`; subject 1's own sidecar overrides column `d`
+(no definition any more); both events files use `Def/Mk/x` in their HED column -/
+def exDefDataset : RawTree :=
+  [ ([['e','v','e','n','t','s','.','j','s','o','n']],
+      .json (some [(['d'], defEntry ['(','D','e','f','i','n','i','t','i','o','n','/','M','k','/','#',',',' ','(','L','a','b','e','l','/','#',')',')'])])),
+    ([sub' '1', sub' '1' ++ evJson'], .json (some [(['d'], defEntry ['R','e','d'])])),
+    ([sub' '1', sub' '1' ++ '_' :: taskA' ++ evTsv'], .tsv useTable),
+    ([sub' '2', sub' '2' ++ '_' :: taskA' ++ evTsv'], .tsv useTable) ]
+
+/-- **inherited definitions, raw** (`decide +kernel`).  A definition is inherited like any other column: subject 2's
+rows see the root sidecar's `Mk/#` and `Def/Mk/x` is accepted; subject 1's merged sidecar lost it by the per-column
+override, so the same cell is an unmatched `Def` in row 2 of its file — each file is judged in the environment of its
+own merged sidecar. -/
+theorem inherited_definition_example_closed_raw :
+    (validateDatasetClosedRaw C01.Tiny.env exConsts exDefDataset [] [['e','v','e','n','t','s']] false).toOption =
+    some [ .table [sub' '1', sub' '1' ++ '_' :: taskA' ++ evTsv']
+             ⟨C07.kindOf .defUnmatched, 1, some 2, some Assemble.HEDNAME, ['D','e','f','/','M','k','/','x'], .cell 0 0⟩ ] := by
   decide +kernel
 end ExampleRaw
 
